@@ -439,6 +439,15 @@ func checkC19(w *World, r *Report) {
 				if !mutable {
 					continue
 				}
+				// a table written as a literal and only ever read (indexed, ranged over, measured) holds no state
+				if tv, isVar := g.Object().(*types.Var); isVar && report {
+					if init, _ := w.VarInit(tv); init != nil {
+						if _, isLit := ast.Unparen(init).(*ast.CompositeLit); isLit && w.readOnlyTable(tv) {
+							r.OK("R19.9", key+"."+name, g.Pos(), "a literal table that is only read")
+							continue
+						}
+					}
+				}
 				n++
 				if report {
 					r.Fail("R19.9", key+"."+name, g.Pos(), "package-level variable of a mutable kind ("+t.String()+"): bytes or trees handed to one caller can be changed by the next call (e.g. a pooled output buffer that the returned slice aliases)")
